@@ -1,6 +1,6 @@
-// capacities [3, 4] of the C10/C11 harness
+// capacities [3, 4] (both objects) of the C10/C11 harness
 #include "c10_impl.hpp"
 namespace c10 {
-std::string run_3(const std::vector<std::string>& w) { return run<3>(w); }
-std::string run_4(const std::vector<std::string>& w) { return run<4>(w); }
+std::string run_3_3(const std::vector<std::string>& w) { return run<3, 3>(w); }
+std::string run_4_4(const std::vector<std::string>& w) { return run<4, 4>(w); }
 }
